@@ -71,6 +71,18 @@ theorem MDict_iter_mem (args : List Arg) (k : Nat) :
 theorem MDict_iter_order (args : List Arg) :
     iter (init args) = ((init args).reverse.flatMap Dict.keys).foldl addKey [] := iter_order _
 
+/-- what `items()` returns is itself a well-formed dict, and `values()` are the lookups of the keys `__iter__` yields, in that
+    order -/
+theorem MDict_items_wf (args : List Arg) : (iteritems (init args)).wf := iteritems_wf _
+
+theorem MDict_values (args : List Arg) (hwf : ∀ d ∈ init args, Dict.wf d) :
+    itervalues (init args) = (iter (init args)).filterMap (getitem (init args)) := by
+  unfold itervalues iter
+  rw [values_eq_lookups _ (iteritems_wf _)]
+  apply filterMap_congr'
+  intro k _
+  exact iteritems_get? _ hwf k
+
 theorem MDict_addKey (ks : List Nat) (k : Nat) : addKey ks k = if k ∈ ks then ks else ks ++ [k] :=
   addKey_eq ks k
 
